@@ -1,0 +1,11 @@
+//go:build !verif
+
+// Package verifhook provides named schedule points for the verification
+// harness. Without the "verif" build tag every function is an empty stub.
+package verifhook
+
+// Enabled reports whether hooks are compiled in.
+const Enabled = false
+
+// Point is a no-op without the verif build tag.
+func Point(string, interface{}) {}
